@@ -21,7 +21,13 @@ var (
 	smInvalid = CfgLit{Origins: []string{"https://c.example", "https://c.example/path"}, Methods: []string{"QUERY"}, MaxAge: 10}
 	smD       = CfgLit{Origins: []string{"https://d.example", "https://a.example"}, Credentialed: true, Methods: []string{"PUT", "*"}, RequestHeaders: []string{"X-Trace-Id", "*", "x-a"}, ResponseHeaders: []string{"X-R"}, MaxAge: 600}
 	smE       = CfgLit{Origins: []string{"https://a.example"}, RequestHeaders: []string{"Authorization", "*", "X-B"}, Methods: []string{"*"}, PNANoCORS: true}
-	smCfgs    = map[string]CfgLit{"A": smA, "B": smB, "C": smC, "D": smD, "E": smE}
+	// configurations of the diagnostics part only (sparse ones: a preflight can fail at every step also in debug mode)
+	smF    = CfgLit{Origins: []string{"https://a.example"}}
+	smG    = CfgLit{Origins: []string{"https://a.example", "https://*.a.example"}, Credentialed: true, Methods: []string{"PUT"}, Status: 200}
+	smH    = CfgLit{Origins: []string{"*"}, Methods: []string{"DELETE", "PATCH"}, MaxAge: 30, ResponseHeaders: []string{"X-R"}}
+	smI    = CfgLit{Origins: []string{"https://a.example"}, RequestHeaders: []string{"X-A"}, Status: 299, MaxAge: -1}
+	smCfgs = map[string]CfgLit{"A": smA, "B": smB, "C": smC, "D": smD, "E": smE, "F": smF, "G": smG, "H": smH, "I": smI}
+	smDiag = []string{"A", "B", "C", "D", "E", "F", "G", "H", "I"}
 )
 
 type smOp struct {
@@ -111,7 +117,7 @@ func smEnsure() { smOnce.Do(smPrepare) }
 
 func smPrepare() {
 	smSuite = suiteFor(smA, smB, smC, smD, smE)
-	smSuiteFull = smSuite
+	smSuiteFull = suiteFor(smA, smB, smC, smD, smE, smF, smG, smH, smI)
 	// the state-machine checks observe the whole suite after every step of every history: keep it to a few
 	// hundred requests (deterministic stride; the first block with the non-CORS probes is kept whole)
 	const maxSuite = 360
@@ -211,6 +217,9 @@ func c09Diag(name string, r vlib.Req) *vlib.Failure {
 	innerOff, innerOn := &vlib.Noop{}, &vlib.Noop{}
 	a := vlib.Serve(mOff.Wrap(innerOff), &innerOff.Calls, r, nil)
 	b := vlib.Serve(mOn.Wrap(innerOn), &innerOn.Calls, r, nil)
+	if a.ExtraWrites > 0 || b.ExtraWrites > 0 {
+		return vlib.Failf("configuration %s: the middleware calls WriteHeader more than once for %s (debug off: %d extra calls, debug on: %d)", name, r, a.ExtraWrites, b.ExtraWrites)
+	}
 	if a.Sig() == b.Sig() {
 		return nil
 	}
@@ -390,7 +399,7 @@ func checkC09(c *vlib.Ctx) (string, string) {
 			return levelMC, rule
 		}
 	}
-	for _, name := range []string{"A", "B", "C", "D", "E"} {
+	for _, name := range smDiag {
 		for i := range smSuiteFull {
 			r := smSuiteFull[i]
 			c.Transitions.Add(2)
